@@ -118,6 +118,15 @@ theorem tick_block (b : Band) (now : Nat) :
     (bandChooseHelloTime (bandUpdateStats b now) now).helloTs = now + bandInterval (bandUpdateStats b now).ni ∧
     (bandChooseHelloTime (bandUpdateStats b now) now).ni = (bandUpdateStats b now).ni := ⟨rfl, rfl⟩
 
+/-- every Hello heard is counted: r increases by exactly one (no narrower counter, no wrap below 2^32) -/
+theorem heard (pre : Band) (hr : pre.r < u32) : holdsC13Heard pre (bandOnHelloReceived pre) = true := by
+  unfold holdsC13Heard bandOnHelloReceived
+  have hu : u32 = 4294967296 := rfl
+  by_cases hmax : pre.r = 4294967295
+  · simp [hmax]
+  · have hlt : pre.r + 1 < u32 := by omega
+    simp [Nat.mod_eq_of_lt hlt]
+
 /-! ## The tick itself -/
 
 theorem enumUpdate_band (e : Fsm) (b : Band) (te ac : Bool) (nowS : Nat) (h : (enumUpdate e b te ac nowS).1.state = 1) :
